@@ -193,7 +193,11 @@ class Tensor(Type):
         # exception to bubble up.
         dtype_to_tensor_type(dtype)
         rich_shape = Shape.from_simple(shape)
-        object.__setattr__(self, "_elem_type", np.dtype(dtype).type)
+        # Store the canonical scalar type of the ONNX element type so that aliases
+        # (e.g. ``np.longlong`` for ``np.int64``) produce equal types.
+        object.__setattr__(
+            self, "_elem_type", tensor_type_to_dtype(dtype_to_tensor_type(dtype)).type
+        )
         object.__setattr__(self, "_shape", rich_shape)
 
     @property
